@@ -1,5 +1,5 @@
 """C14 — max-fails: exceeding the limit aborts the rest of the job for good."""
-from hqrules.core import FailClosed, callee_of, callee_decl, op_local, op_place, place_fields, norm
+from hqrules.core import FailClosed, callee_of, callee_decl, op_local, op_place, place_fields, norm, op_const
 from hqrules.templates import (effect_blocks, must_pass, state_writes, variants_at, call_sites, construct_sites, Effect,
                                loop_headers_containing, owner_fn, scrutinees, guard_edges, dominated_by_edges,
                                local_field_sources, binops, operand_fields, bool_uses)
@@ -96,11 +96,23 @@ def run(ctx):
         cb = prog.bodies[p]
         for k, st in cb.variant_flow(JTS).items():
             found = True
-            for owner, bb, bi2, s2 in construct_sites(prog, 'core::option::Option', 'Some'):
-                if bb.path == cb.path:
-                    vs = st.get(bi2)
-                    if vs:
-                        sel |= set(vs)
+            if cb.locals[0][0] == 'bool':
+                # filter(|..| matches!(state, ..)) form: the variants under which the predicate is set to true
+                for bi2 in cb.reachable():
+                    for s2 in cb.stmts(bi2):
+                        if s2['k'] == 'a' and s2['p'] == [0, []]:
+                            cv = op_const(s2['rv'][1]) if s2['rv'][0] == 'use' else None
+                            if cv is None:
+                                raise FailClosed('R14.4: selection predicate of non_finished_task_ids is not a constant per arm')
+                            if str(cv).replace('const ', '').startswith('true'):
+                                sel |= set(st.get(bi2) or prog.variants(JTS))
+            else:
+                # filter_map(|..| match state { .. => Some(..), .. => None }) form
+                for owner, bb, bi2, s2 in construct_sites(prog, 'core::option::Option', 'Some'):
+                    if bb.path == cb.path:
+                        vs = st.get(bi2)
+                        if vs:
+                            sel |= set(vs)
     ctx.require(found, 'R14.4: JobTaskState match not found in non_finished_task_ids')
     ctx.ob('R14.4', 'non_finished_task_ids|{Waiting,Running}', sel == {'Waiting', 'Running'}, f'non_finished_task_ids yields exactly Waiting and Running tasks (observed {sorted(sel)})', nfb.loc())
 
